@@ -5,7 +5,7 @@ From Scenic Require Import C12.Dyn.
 Import ListNotations.
 
 (* classes of events, in the documented order of one time step *)
-Definition is_scen_ev (e : event) : Prop := match e with EScenario _ _ | ETermWhen _ _ => True | _ => False end.   (* 1 *)
+Definition is_scen_ev (e : event) : Prop := match e with EScenario _ _ | ETermWhen _ _ | EReq _ _ _ => True | _ => False end.   (* 1 *)
 Definition is_rec_ev (e : event) : Prop := match e with ERecord _ => True | _ => False end.                      (* 2 *)
 Definition is_mon_ev (e : event) : Prop := match e with EMonitor _ _ => True | _ => False end.                   (* 3 *)
 Definition is_term_ev (e : event) : Prop := match e with ETermCheck _ => True | _ => False end.                  (* 4 *)
